@@ -274,6 +274,11 @@ func exploreScenario(rep *ev.Report, sc Scenario, bound int, rootOnly bool) {
 		}
 	}
 
+	if x.Foreign {
+		stuck = true
+		rep.Incomplete("the library keeps goroutines running between calls (a worker started by an init function or by an earlier call): their steps reach the scheduler from outside its threads, so no cooperative execution owns them; the scheduler exploration is not applicable to this tree - the race pass, footprint and watch parts still decide")
+	}
+
 	if x.Stuck {
 		stuck = true
 		rep.Incomplete(fmt.Sprintf("an execution of scenario %s made no progress for %v: the tree blocks in a way the cooperative scheduler does not own (channel operation, spin loop on plain memory, ...); the scheduler exploration was abandoned - the race pass, footprint and watch parts still decide", sc, StuckAfter))
